@@ -46,6 +46,38 @@ def mutate(rng, text):
         lines[i] = lines[i] + ' # ‮\u0000￾'.replace('\u0000', '')
     return '\n'.join(lines), kind
 
+# fixed corpus: one docstring per known way a markup parser complains (with and without a line number), run once per docformat
+TORTURE_DOCSTRINGS = [
+    "Some text with an `anonymous`__ reference and no target.",
+    "`a link`__ and `another`__ but only one target.\n\n__ https://example.org/",
+    "Unknown role :nosuchrole:`x` and unknown directive:\n\n.. nosuchdirective:: y\n",
+    "Title\n==\nunderline too short\n\nDuplicate target_\n\n.. _target: a\n.. _target: b\n",
+    "Unbalanced L{brace and I{nested B{deep} markup",
+    "@param: missing name\n@nosuchfield x: y\n@return: a\n@return: b\n@type zzz: int",
+    "  - list item\n over-dedented\n    1. ordered\n  3. wrong number",
+    "Args:\n    x (int: unbalanced\n  bad indent\nReturns:\nRaises:\n    : nothing",
+    "Parameters\n----------\nx : int, optional, default\n\nReturns\n---\n\nSee Also\n--------\n:broken",
+    ">>> print(1\n... )\n1\n>>> \n",
+    "|substitution| [1]_ [#]_ footnote_ `phrase reference`_ *unclosed emphasis",
+    ".. include:: /etc/passwd\n\n.. raw:: html\n\n   <b>x</b>\n",
+    "E{lb}E{rb}E{nosuch} U{http://x<y>} X{index} M{math} C{code} S{nosymbol}",
+    "\x0c form feed, \x0b vertical tab, tab\there, NBSP\u00a0, ZWJ\u200d, RTL \u202e, astral \U0001f600",
+    ":param x: reST field in any format\n:type x: `unclosed\n:raises ValueError:\n:returns",
+    "lone surrogate SURROGATE_ESC in the text and in a field\n\n@param x: SURROGATE_ESC",
+    "",
+    "   \n\n   ",
+]
+
+def torture_project(docformat):
+    lines = ['"""Torture module for %s."""' % docformat]
+    for i, d in enumerate(TORTURE_DOCSTRINGS):
+        body = d.replace('\\', '\\\\').replace('"""', '\\"\\"\\"')
+        lines.append('def f%d(x, y=1):\n    """\n    %s\n    """\n' % (i, body.replace('\n', '\n    ')))
+        lines.append('class K%d:\n    """%s"""\n    a%d = 1\n    """%s"""\n' % (i, body, i, body))
+    lines = [l.replace('SURROGATE_ESC', '\\udc80') for l in lines]
+    return {'files': [['torture_%s.py' % docformat, '\n'.join(lines) + '\n'], ['good.py', '"""Fine."""\ndef ok():\n    """ok"""\n']],
+            'docformat': docformat}
+
 def parses(text):
     try:
         ast.parse(text)
@@ -119,6 +151,8 @@ def main():
             if not parses(text):
                 unparsable += 1
         cases.append({'files': files, 'docformat': rng.choice(DOCFORMATS)})
+    for df in DOCFORMATS:
+        cases.append(torture_project(df))
     failures = []
     hist = {}
     with ThreadPoolExecutor(max_workers=req.get('jobs', 8)) as ex:
